@@ -131,10 +131,9 @@ abbrev CFault := Option (Nat × Option Nat)
 inductive ChildEnd where
   /-- the new image runs, every step done: the configured program with the configured set-up -/
   | execd
-  /-- errno + footer written to the pipe, `exit(1)` -/
+  /-- code + footer written to the pipe, `exit(1)`; the code is the step's errno, or 0 for a failure
+      without errno -/
   | reported (errno : Nat)
-  /-- `exit(1)` without a message (failure without errno) -/
-  | silent
   /-- returned `Err` from `spawn` INSIDE the child: a second copy of the caller runs on -/
   | returned (errno : Option Nat)
 deriving DecidableEq, Repr
@@ -146,7 +145,7 @@ def childRun (fixed : Bool) (steps : List CStep) : CFault → ChildEnd
     else if k + 1 = steps.length || fixed then
       match e with
       | some e => .reported e
-      | none => .silent
+      | none => .reported 0
     else .returned e
 
 /-- what the caller's `read` of the pipe yields in the end -/
@@ -195,7 +194,7 @@ def parentRun (pf : PFault) (msg : PipeMsg) : ParentEnd :=
       | .msg e =>
         match pf.waitErr with
         | some w => .err (some w) false
-        | Option.none => .err (some e) true
+        | Option.none => if e = 0 then .err Option.none true else .err (some e) true
 
 /-- the processes that come back out of `spawn` -/
 inductive Who where
